@@ -618,6 +618,58 @@ func TestVerifDaemon(t *testing.T) {
 		})
 	}
 
+	if prop == "C17" {
+		// Three interfaces in one configuration, the first of which is neither
+		// advertised on nor monitored: the metrics and the debug API (built from the
+		// same configuration as the tasks) report each of them once, in order.
+		scen("interface-list", func(id string, lg *rLog, p *probe) (string, string) {
+			cfg := "[[interfaces]]\nname = \"lo\"\n[[interfaces]]\nname = \"va\"\nadvertise = true\nmax_interval = \"4s\"\n  [[interfaces.prefix]]\n  prefix = \"2001:db8:17::/64\"\n[[interfaces]]\nname = \"vb\"\nmonitor = true\n[debug]\naddress = \"127.0.0.1:9430\"\nprometheus = true\n"
+			d, err := startDaemon(lg, dir, cfg)
+			if err != nil {
+				return err.Error(), "inconclusive"
+			}
+			defer d.kill()
+			if _, ok := lg.waitFor(isRA, -1, 8*time.Second); !ok {
+				return "no RA within 8 s: " + lastLines(d.stderr.String(), 5), "inconclusive"
+			}
+			time.Sleep(200 * time.Millisecond)
+			code, body, err := httpGet("/metrics")
+			if err != nil || code != 200 {
+				return fmt.Sprintf("/metrics with three configured interfaces: %v %d %s", err, code, lastLines(body, 4)), "scrape"
+			}
+			for _, w := range [][3]string{{"lo", "0", "0"}, {"va", "1", "0"}, {"vb", "0", "1"}} {
+				a, ok1 := metricValue(body, `corerad_interface_advertising{interface="`+w[0]+`"}`)
+				m, ok2 := metricValue(body, `corerad_interface_monitoring{interface="`+w[0]+`"}`)
+				if !ok1 || !ok2 || a != w[1] || m != w[2] {
+					return fmt.Sprintf("interface %s: advertising gauge %q (present %v), monitoring gauge %q (present %v); configured advertising=%s monitoring=%s", w[0], a, ok1, m, ok2, w[1], w[2]), "scrape-content"
+				}
+			}
+			code, body, err = httpGet("/_/api/interfaces")
+			if err != nil || code != 200 {
+				return fmt.Sprintf("API with three configured interfaces: %v %d %s", err, code, body), "api"
+			}
+			var doc struct {
+				Interfaces []struct {
+					Interface     string          `json:"interface"`
+					Advertise     bool            `json:"advertise"`
+					Advertisement json.RawMessage `json:"advertisement"`
+				} `json:"interfaces"`
+			}
+			if err := json.Unmarshal([]byte(body), &doc); err != nil {
+				return "API body: " + err.Error(), "api"
+			}
+			var names []string
+			for _, e := range doc.Interfaces {
+				names = append(names, fmt.Sprintf("%s/%v/%v", e.Interface, e.Advertise, len(e.Advertisement) > 4))
+			}
+			if got, want := strings.Join(names, " "), "lo/false/false va/true/true vb/false/false"; got != want {
+				return "the debug API lists " + got + ", the configuration is " + want + " (name/advertise/has advertisement)", "api-content"
+			}
+			r.Count("interface_list_scenarios_ok", 1)
+			return "", ""
+		})
+	}
+
 	if prop == "C09" || prop == "C10" {
 		scen("invalid-then-valid", func(id string, lg *rLog, p *probe) (string, string) {
 			d, err := startDaemon(lg, dir, baseCfg)
@@ -927,6 +979,126 @@ func TestVerifDaemon(t *testing.T) {
 			return "", ""
 		})
 	}
+
+	if prop == "C13" || prop == "C14" {
+		// One stanza for both ends of the veth pair (`names`), with the wildcards: each
+		// interface advertises its OWN networks and picks its OWN address, whichever
+		// of the two was initialised last.
+		scen("wildcards-names-group", func(id string, lg *rLog, p *probe) (string, string) {
+			_ = os.WriteFile("/proc/sys/net/ipv6/conf/vb/forwarding", []byte("1"), 0o644)
+			defer os.WriteFile("/proc/sys/net/ipv6/conf/vb/forwarding", []byte("0"), 0o644)
+			for _, a := range [][2]string{{"2001:db8:a::1/64", "va"}, {"fd00:a::1/64", "va"}, {"2001:db8:b::1/64", "vb"}, {"2001:db8:bb::1/64", "vb"}} {
+				_ = sh("ip", "-6", "addr", "add", a[0], "dev", a[1], "nodad")
+			}
+			time.Sleep(100 * time.Millisecond)
+			p2, err := newProbeOn("va", "ra2", lg)
+			if err != nil {
+				return "second probe: " + err.Error(), "inconclusive"
+			}
+			defer p2.c.Close()
+			sysA, errA := kernelAddrs("va")
+			sysB, errB := kernelAddrs("vb")
+			if errA != nil || errB != nil {
+				return fmt.Sprintf("ip -j failed: %v %v", errA, errB), "inconclusive"
+			}
+			ll := func(sys []model.SysIP) string {
+				for _, a := range sys {
+					if a.Addr.Addr().IsLinkLocalUnicast() {
+						return a.Addr.Addr().String()
+					}
+				}
+				return ""
+			}
+			cfg := "[[interfaces]]\nnames = [\"va\", \"vb\"]\nadvertise = true\nmax_interval = \"4s\"\n  [[interfaces.prefix]]\n  [[interfaces.rdnss]]\n"
+			d, err := startDaemon(lg, dir, cfg)
+			if err != nil {
+				return err.Error(), "inconclusive"
+			}
+			defer d.kill()
+			for _, side := range []struct {
+				name, kind string
+				sys        []model.SysIP
+			}{{"va", "ra", sysA}, {"vb", "ra2", sysB}} {
+				src := ll(side.sys)
+				// the second RA of each side: both interfaces have been initialised by then
+				var seen []rEvent
+				ok := false
+				for t0 := time.Now(); time.Since(t0) < 12*time.Second; time.Sleep(50 * time.Millisecond) {
+					seen = seen[:0]
+					for _, e := range lg.snapshot() {
+						if e.Kind == side.kind && e.Src == src {
+							seen = append(seen, e)
+						}
+					}
+					if len(seen) >= 2 {
+						ok = true
+						break
+					}
+				}
+				if !ok {
+					return fmt.Sprintf("fewer than two RAs from %s (%s) within 12 s: %s", side.name, src, lastLines(d.stderr.String(), 5)), "inconclusive"
+				}
+				e := seen[len(seen)-1]
+				var gotP, gotS []string
+				for _, o := range e.RA.Options {
+					switch o.Kind {
+					case "prefix":
+						gotP = append(gotP, o.Prefix)
+					case "rdnss":
+						gotS = o.Servers
+					}
+				}
+				var wantP []string
+				for _, x := range model.WildPrefixes(side.sys) {
+					wantP = append(wantP, x.String())
+				}
+				best, okb := model.WildRDNSS(side.sys)
+				lg.add(rEvent{Kind: "note", Text: fmt.Sprintf("%s: kernel addrs=%v; RA prefixes=%v rdnss=%v", side.name, side.sys, gotP, gotS)})
+				if prop == "C13" && fmt.Sprint(gotP) != fmt.Sprint(wantP) {
+					return fmt.Sprintf("interface %s of a names group advertises the wildcard prefixes %v, its own addresses call for %v", side.name, gotP, wantP), "wildcard-prefix"
+				}
+				if prop == "C14" && (!okb || len(gotS) == 0 || gotS[0] != best.String()) {
+					return fmt.Sprintf("interface %s of a names group advertises the wildcard RDNSS %v, the ranking over its own addresses gives %v", side.name, gotS, best), "wildcard-rdnss"
+				}
+				r.Count("names_group_expansions_compared", 1)
+			}
+			return "", ""
+		})
+	}
+}
+
+// kernelAddrs reads the kernel's IPv6 address list of an interface with ip(8),
+// independently of CoreRAD's netlink code.
+func kernelAddrs(dev string) ([]model.SysIP, error) {
+	out, err := exec.Command("ip", "-j", "-6", "addr", "show", "dev", dev).Output()
+	if err != nil {
+		return nil, err
+	}
+	var ifs []struct {
+		AddrInfo []struct {
+			Local         string `json:"local"`
+			Prefixlen     int    `json:"prefixlen"`
+			Temporary     bool   `json:"temporary"`
+			Tentative     bool   `json:"tentative"`
+			Deprecated    bool   `json:"deprecated"`
+			Mngtmpaddr    bool   `json:"mngtmpaddr"`
+			StablePrivacy bool   `json:"stable-privacy"`
+			ValidLifeTime uint64 `json:"valid_life_time"`
+		} `json:"addr_info"`
+	}
+	if err := json.Unmarshal(out, &ifs); err != nil || len(ifs) == 0 {
+		return nil, fmt.Errorf("cannot decode ip -j output: %v", err)
+	}
+	var sys []model.SysIP
+	for _, a := range ifs[0].AddrInfo {
+		ad, err := netip.ParseAddr(a.Local)
+		if err != nil {
+			continue
+		}
+		sys = append(sys, model.SysIP{Addr: netip.PrefixFrom(ad, a.Prefixlen), Deprecated: a.Deprecated, ManageTemp: a.Mngtmpaddr, StablePrivacy: a.StablePrivacy,
+			Temporary: a.Temporary, Tentative: a.Tentative, ValidForever: a.ValidLifeTime == 4294967295})
+	}
+	return sys, nil
 }
 
 func lastLines(s string, n int) string {
